@@ -3,7 +3,8 @@
    repairs.  Definitions only; pure functions over an explicit reader state. *)
 From MQ Require Export Bytes.
 
-(* what one conn.Read call returns: some data (non-empty, fits the slice) or an error *)
+(* an entry of the connection script: a data segment (non-empty; when it fits the slice
+   it is the result of one conn.Read call, see conn_read) or an error *)
 Inductive rans :=
 | RData (bs : list N)
 | RTimeout            (* net.Error with Timeout(): the read deadline expired *)
